@@ -79,6 +79,7 @@ func cmdCheck(argv []string) {
 	solver := fs.String("solver", "z3", "z3 | z3-new | cvc5")
 	record := fs.String("record", "", "write the query transcript of worker 0 to this file")
 	qtimeout := fs.Duration("qtimeout", 15*time.Second, "hard wall-clock limit per solver query (watchdog)")
+	refPlain := fs.Bool("refplain", false, "run the reference side of -pair as plain Go (no co intrinsics): used when both sides are generated code (C07)")
 	initPkgs := fs.String("init", "", "comma-separated extra package paths whose init may run")
 	fs.Parse(argv)
 
@@ -187,7 +188,7 @@ func cmdCheck(argv []string) {
 			if ifn == nil {
 				continue
 			}
-			specs = append(specs, &DriverSpec{Name: p.ref + "." + n, Ref: rp.Func(n), Impl: ifn, RefPkg: rp, ImplPkg: ip})
+			specs = append(specs, &DriverSpec{Name: p.ref + "." + n, Ref: rp.Func(n), Impl: ifn, RefPkg: rp, ImplPkg: ip, RefPlain: *refPlain})
 		}
 	}
 	for _, h := range harness {
